@@ -1,4 +1,5 @@
 import time
+import math
 import networkx as nx
 import flowpaths.stdag as stdag
 import flowpaths.utils.graphutils as gu
@@ -168,11 +169,11 @@ class kFlowDecomp(pathmodel.AbstractPathModelDAG):
 
         # Check that the flow is positive and get max flow value
         self.flow_attr = flow_attr
-        self.w_max = self.weight_type(
-            self.G.get_max_flow_value_and_check_non_negative_flow(
-                flow_attr=self.flow_attr, edges_to_ignore=self.edges_to_ignore
-            )
+        max_flow_value = self.G.get_max_flow_value_and_check_non_negative_flow(
+            flow_attr=self.flow_attr, edges_to_ignore=self.edges_to_ignore
         )
+        # (int() would truncate a flow value such as 56.99999999999999 and cut off the weight 57)
+        self.w_max = math.ceil(max_flow_value) if self.weight_type == int else float(max_flow_value)
 
         if k <= 0 or not isinstance(k, numbers.Integral):
             utils.logger.error(f"{__name__}: k must be a positive integer, not {k}")
